@@ -106,8 +106,20 @@ class Gen:
         rng = self.rng
         r = rng.random()
         if r < 0.4:
-            return [{"op": "succeed", "ev": "E%d" % rng.randrange(self.n_events),
-                     "value": "s%d" % rng.randrange(100)}]
+            first = rng.randrange(self.n_events)
+            ops = [{"op": "succeed", "ev": "E%d" % first, "value": "s%d" % rng.randrange(100)}]
+            if self.n_events > 1 and rng.random() < 0.35:
+                # a second event triggered in the same step by the same process
+                second = rng.choice([i for i in range(self.n_events) if i != first])
+                if rng.random() < 0.5:
+                    self.serial += 1
+                    self.features.add("failure")
+                    ops.append({"op": "fail", "ev": "E%d" % second, "serial": self.serial})
+                else:
+                    ops.append({"op": "succeed", "ev": "E%d" % second,
+                                "value": "s%d" % rng.randrange(100)})
+                self.features.add("same-step-triggers")
+            return ops
         if r < 0.5:
             self.serial += 1
             self.features.add("failure")
@@ -184,6 +196,10 @@ def _generate(rng, tier):
             gen.features.add("native-activities")
     gen.victims = {name for name in top if name not in gen.natives and rng.random() < 0.4}
     processes = [gen.process(name, list(top)) for name in top]
+    if not embedded and rng.random() < 0.05:
+        gen.serial += 1
+        gen.features.add("failure")
+        processes.append({"name": "early", "ops": [{"op": "raise", "serial": gen.serial}]})
     scenario = {"mode": "events", "initial_time": rng.choice([0, 0, 3]),
                 "events": ["E%d" % i for i in range(gen.n_events)], "processes": processes}
     if embedded:
@@ -215,6 +231,7 @@ PAUSES = ("timeout", "native")
 def valid(case):
     """The race-free construction rules (also applied to shrunk candidates)."""
     delays = []
+    groups = []          # pairs of events triggered in one step by one process
 
     def members(spec):
         for member in spec["of"]:
@@ -227,6 +244,8 @@ def valid(case):
         ops = spec.get("ops", ())
         if not ops:
             return True
+        if len(ops) == 1 and ops[0]["op"] == "raise":
+            return True        # fails before its first yield (nothing else acts at that time)
         if ops[0]["op"] not in PAUSES:
             return False
         last = [op for op in ops if op["op"] != "raise"]
@@ -240,9 +259,21 @@ def valid(case):
                 members(op)
             if kind in ACTIONS:
                 before = ops[i - 1]["op"]
-                if before not in PAUSES and not (kind == "interrupt" and before == "interrupt"
-                                                 and ops[i - 1]["proc"] == op["proc"]):
+                paired = kind in ("succeed", "fail") and before in ("succeed", "fail") \
+                    and i >= 2 and ops[i - 2]["op"] in PAUSES and ops[i - 1]["ev"] != op["ev"]
+                if before not in PAUSES and not paired and not (
+                        kind == "interrupt" and before == "interrupt"
+                        and ops[i - 1]["proc"] == op["proc"]):
                     return False
+                if kind in ("succeed", "fail") and i + 1 < len(ops) \
+                        and ops[i + 1]["op"] in ("succeed", "fail") and before in PAUSES \
+                        and ops[i + 1]["ev"] != op["ev"]:
+                    groups.append({op["ev"], ops[i + 1]["ev"]})
+                    continue
+                if kind in ("succeed", "fail") and before in ("succeed", "fail"):
+                    if i + 1 < len(ops) and ops[i + 1]["op"] not in PAUSES:
+                        return False
+                    continue
                 if kind != "raise" and kind != "interrupt" and i + 1 < len(ops) \
                         and ops[i + 1]["op"] not in PAUSES:
                     return False
@@ -270,15 +301,19 @@ def valid(case):
             walk(spec, targets, acting)
         if targets & acting:
             return False      # an interrupted pause would move an action to a foreign instant
-        if not _conditions_ok(case["scenario"]):
+        if not _conditions_ok(case["scenario"], groups):
             return False
+        until = case["scenario"].get("until")
+        if isinstance(until, dict) and any(until.get("ev") in group for group in groups):
+            return False      # stop event and another trigger in one step: open outcome
     except (KeyError, IndexError, TypeError):
         return False
     return len(delays) == len(set(delays))
 
 
-def _conditions_ok(scenario):
-    """Members that can fail occur at most once per condition tree, and never nested."""
+def _conditions_ok(scenario, groups=()):
+    """Members that can fail occur at most once per condition tree, and never nested; two
+    events triggered in the same step never meet in an any-condition (or in nested ones)."""
     failing = set()
     conds = []
 
@@ -308,6 +343,23 @@ def _conditions_ok(scenario):
                 return False
         return True
 
+    def events_of(cond, out, nested_any):
+        for member in cond["of"]:
+            if "ev" in member:
+                out.add(member["ev"])
+            if "cond" in member:
+                events_of(member["cond"], out, nested_any)
+        return out
+
+    def any_inside(cond):
+        return cond["kind"] == "any" or any("cond" in m and any_inside(m["cond"])
+                                            for m in cond["of"])
+
+    for cond in conds:
+        if groups and any_inside(cond):
+            used = events_of(cond, set(), False)
+            if any(len(group & used) > 1 for group in groups):
+                return False
     return all(members(cond, 0, set()) for cond in conds)
 
 
@@ -335,6 +387,8 @@ def compare(rec, scenario):
 
     for rule, msg in rec.kernel_violations:
         bad("kernel:" + rule, msg)
+    for rule, msg in rec.monitor_violations:
+        bad(rule, msg)
     model = Model(scenario)
     verdict, value, end = model.run()
     # outcome of env.run
